@@ -2,6 +2,7 @@ package props
 
 import (
 	"fmt"
+	"regexp"
 	"strings"
 	"sync"
 	"sync/atomic"
@@ -39,6 +40,26 @@ type ConcCase struct {
 	Vals    map[string]*m.Val  `json:"vals"`
 	Workers []CWorker          `json:"workers"`
 	NVar    int                `json:"nvar,omitempty"` // number of salted variants
+	// Rejected: source texts derived from the programs that (mostly) do not compile - cut short,
+	// closers missing, dangling operators, unknown names; op kind "reject" compiles one of them on
+	// an engine of its own (or through Eval) and the error text must be the one it gets alone
+	Rejected []string `json:"rejected,omitempty"`
+}
+
+var tyVarCounter = regexp.MustCompile(`([A-Za-z_])\d+`)
+
+// rejectText: the outcome of compiling (and, should it compile, evaluating) a source; the
+// process-wide counter in the names of type variables is not part of the outcome
+func rejectText(v *val.Val, err error, p *run.Panic) string {
+	switch {
+	case p != nil:
+		return "panic: " + tyVarCounter.ReplaceAllString(p.Text, "$1#")
+	case err != nil:
+		return "error: " + tyVarCounter.ReplaceAllString(err.Error(), "$1#")
+	case v == nil:
+		return "nil"
+	}
+	return v.String()
 }
 
 // caseSeq numbers the workloads of this process: part of the salt, so that
@@ -102,6 +123,27 @@ func genConcCase(t *rapid.T) *ConcCase {
 		}
 		c.Exprs = append(c.Exprs, g.Expr(g.AnyResultType()))
 	}
+	for i := 0; i < n; i++ {
+		src := []rune(m.Print(c.Exprs[i], m.PrintOpt{}))
+		switch rapid.IntRange(0, 7).Draw(t, "rejectkind") {
+		case 0:
+			c.Rejected = append(c.Rejected, string(src[:rapid.IntRange(0, len(src)).Draw(t, "cut")]))
+		case 1:
+			c.Rejected = append(c.Rejected, string(src)+" +")
+		case 2:
+			c.Rejected = append(c.Rejected, "len("+string(src))
+		case 3:
+			c.Rejected = append(c.Rejected, "["+string(src)+", ")
+		case 4:
+			c.Rejected = append(c.Rejected, "{a: "+string(src))
+		case 5:
+			c.Rejected = append(c.Rejected, string(src)+".")
+		case 6:
+			c.Rejected = append(c.Rejected, string(src)+" == undefined_name_q")
+		default:
+			c.Rejected = append(c.Rejected, "[1: "+string(src)+"][")
+		}
+	}
 	c.NVar = rapid.IntRange(1, 4).Draw(t, "nvar")
 	c.Env, c.Vals = g.Env, map[string]*m.Val{}
 	for name, v := range g.Vals {
@@ -113,7 +155,7 @@ func genConcCase(t *rapid.T) *ConcCase {
 		wk := CWorker{Spin: rapid.IntRange(0, 2000).Draw(t, "spin")}
 		k := rapid.IntRange(2, 8).Draw(t, "nops")
 		for j := 0; j < k; j++ {
-			wk.Ops = append(wk.Ops, COp{Kind: pick2(t, []string{"own", "own", "shared", "invoke", "invoke", "eval", "tree"}), Prog: rapid.IntRange(0, n-1).Draw(t, "prog"), Var: rapid.IntRange(0, c.NVar).Draw(t, "var")})
+			wk.Ops = append(wk.Ops, COp{Kind: pick2(t, []string{"own", "own", "shared", "invoke", "invoke", "eval", "tree", "reject"}), Prog: rapid.IntRange(0, n-1).Draw(t, "prog"), Var: rapid.IntRange(0, c.NVar).Draw(t, "var")})
 		}
 		c.Workers = append(c.Workers, wk)
 	}
@@ -200,6 +242,25 @@ func checkConc(c *ConcCase) *Outcome {
 		alone[i][0] = runAlone(i, 0)
 		compileErr[i] = alone[i][0] == "does-not-compile"
 	}
+	rejectAlone := make([]string, len(c.Rejected))
+	runReject := func(i, engine int) string {
+		var v *val.Val
+		var err error
+		p := run.Guard(func() {
+			var cl yae.Callable
+			cl, err = newConcEngine(engine).Compile(c.Rejected[i], run.TypeEnv(c.Env))
+			if err == nil {
+				v, err = cl(freshVals(0))
+			}
+		})
+		return rejectText(v, err, p)
+	}
+	for i := range c.Rejected {
+		rejectAlone[i] = runReject(i, 0)
+		if again := runReject(i, 2); again != rejectAlone[i] && strings.HasPrefix(again, "error") && strings.HasPrefix(rejectAlone[i], "error") {
+			rejectAlone[i] = "" // the two back ends word this refusal differently: not compared
+		}
+	}
 	// ---- the shared engine has finished its first compilation; shared callables exist
 	// two shared engines (VM and closure back end); program i's shared callable comes from engine i%2
 	sharedEngines := []*yae.Expr{newConcEngine(0), newConcEngine(2)}
@@ -248,6 +309,19 @@ func checkConc(c *ConcCase) *Outcome {
 			}
 			atomic.AddInt64(&spinSink, x)
 			for oi, op := range wk.Ops {
+				if op.Kind == "reject" {
+					if len(c.Rejected) == 0 {
+						continue
+					}
+					if atomic.AddInt64(&inflight, 1) > 1 {
+						atomic.AddInt64(&overlapped, 1)
+					}
+					atomic.AddInt64(&total, 1)
+					got := runReject(op.Prog%len(c.Rejected), (wi+oi)%2*2) // an engine of its own, VM or closure back end alike
+					atomic.AddInt64(&inflight, -1)
+					results[wi][oi] = opResult{got, ""}
+					continue
+				}
 				if compileErr[op.Prog] {
 					continue
 				}
@@ -310,8 +384,22 @@ func checkConc(c *ConcCase) *Outcome {
 	}
 	var mismatch []string
 	salted := 0
+	rejects := 0
 	for wi, wk := range c.Workers {
 		for oi, op := range wk.Ops {
+			if op.Kind == "reject" {
+				if len(c.Rejected) == 0 {
+					continue
+				}
+				ri := op.Prog % len(c.Rejected)
+				if want := rejectAlone[ri]; want != "" {
+					rejects++
+					if r := results[wi][oi]; r.got != want {
+						mismatch = append(mismatch, fmt.Sprintf("worker %d op %d (compile %q on an engine of its own): %q, alone %q", wi, oi, c.Rejected[ri], r.got, want))
+					}
+				}
+				continue
+			}
 			if compileErr[op.Prog] {
 				continue
 			}
@@ -327,6 +415,7 @@ func checkConc(c *ConcCase) *Outcome {
 		}
 	}
 	R.Class("operations-on-text-new-to-the-process", salted)
+	R.Class("compilations-of-rejected-sources", rejects)
 	if len(mismatch) > 0 {
 		return bad("concurrent outcomes differ from the outcomes of the same operations run alone:\n  %s\n programs: %s", strings.Join(mismatch, "\n  "), strings.Join(srcs, " ;; "))
 	}
@@ -339,7 +428,7 @@ func checkConc(c *ConcCase) *Outcome {
 var c14 = Register(&Prop[ConcCase]{ID: "C14", Name: "concurrent-workloads", Gen: genConcCase, Check: checkConc})
 
 func TestC14(t *testing.T) {
-	R.Rule = "generated workloads under the race detector: 4-32 goroutines, each a drawn sequence of 2-8 operations over 2-6 generated programs (mono / poly calls, built-in and user-registered lazy functions incl. ones that force a thunk twice, dynamic calls, literals, programs that render or hash object literals on their first evaluation): compile + invoke on an engine of its own, compile on a shared engine that has finished its first compilation, invoke a shared callable, one-shot Eval, compile one shared parsed tree (Expr.Parse once, Expr.CompileExpr per goroutine on an engine of its own); drawn busy-spin start offsets; oracle: no race report (the detector halts the run; the workload is the replay file) and the environment's values in 1-5 variants (the drawn values, and copies whose every string carries a salt unique to the workload, so that built-ins working on run-time text — match with the pattern from the environment in at least one program per workload — meet text new to the process while other goroutines are inside them); every operation's outcome equals the outcome of the same operation run alone (beforehand for the drawn values, afterwards for the salted ones); non-trivial = at least half of the workload's operations started while another goroutine was inside yae (atomic in-flight counter)"
+	R.Rule = "generated workloads under the race detector: 4-32 goroutines, each a drawn sequence of 2-8 operations over 2-6 generated programs (mono / poly calls, built-in and user-registered lazy functions incl. ones that force a thunk twice, dynamic calls, literals, programs that render or hash object literals on their first evaluation): compile + invoke on an engine of its own, compile on a shared engine that has finished its first compilation, invoke a shared callable, one-shot Eval, compile one shared parsed tree (Expr.Parse once, Expr.CompileExpr per goroutine on an engine of its own), compile a source that is refused (a program cut short, with a closer missing, a dangling operator or an unknown name) on an engine of its own - the error text, positions included, must be the one the same source gets alone; drawn busy-spin start offsets; oracle: no race report (the detector halts the run; the workload is the replay file) and the environment's values in 1-5 variants (the drawn values, and copies whose every string carries a salt unique to the workload, so that built-ins working on run-time text — match with the pattern from the environment in at least one program per workload — meet text new to the process while other goroutines are inside them); every operation's outcome equals the outcome of the same operation run alone (beforehand for the drawn values, afterwards for the salted ones); non-trivial = at least half of the workload's operations started while another goroutine was inside yae (atomic in-flight counter)"
 	R.Assume = []string{"the Go scheduler owns the interleaving: this samples schedules, it does not enumerate them", "the race detector has no false positives"}
 	reportKnown(t, "C14")
 	runRegress(t, "C14")
